@@ -843,7 +843,18 @@ pub fn gen_aiger_bounds(binary: bool, rng: &mut StdRng) -> Vec<u8> {
     let b = rng.gen_range(0..2usize);
     let mut out: Vec<u8> = vec![];
     let mut hdr = format!("{} {} {} {} {} {}", if binary { "aig" } else { "aag" }, m, i, l, o, a);
-    if b > 0 || rng.gen_range(0..4) == 0 {
+    // justice properties whose sizes are tiny or (together) exceed what a usize can count
+    let j = if rng.gen_range(0..3) == 0 { rng.gen_range(1..4usize) } else { 0 };
+    let jsizes: Vec<String> = (0..j).map(|_| match rng.gen_range(0..6) {
+        0 => "18446744073709551615".to_string(),
+        1 => "9223372036854775808".to_string(),
+        2 => "18446744073709551614".to_string(),
+        3 => "0".to_string(),
+        _ => rng.gen_range(1..3usize).to_string(),
+    }).collect();
+    if j > 0 {
+        hdr.push_str(&format!(" {} 0 {}", b, j));
+    } else if b > 0 || rng.gen_range(0..4) == 0 {
         hdr.push_str(&format!(" {}", b));
     }
     out.extend_from_slice(hdr.as_bytes());
@@ -880,6 +891,13 @@ pub fn gen_aiger_bounds(binary: bool, rng: &mut StdRng) -> Vec<u8> {
         out.push(b'\n');
     }
     for _ in 0..o + b {
+        out.extend_from_slice(format!("{}\n", lit(rng)).as_bytes());
+    }
+    for sz in &jsizes {
+        out.extend_from_slice(format!("{}\n", sz).as_bytes());
+    }
+    let local: usize = jsizes.iter().map(|x| x.parse::<usize>().map_or(0, |v| if v < 5 { v } else { 2 })).sum();
+    for _ in 0..local {
         out.extend_from_slice(format!("{}\n", lit(rng)).as_bytes());
     }
     for k in 0..a {
